@@ -133,4 +133,30 @@ def Tree.readDir (t : Tree) (path : Bytes) : Option (List (Bytes × Bool)) :=
 
 def Tree.toFS (t : Tree) : FS := { lstat := t.lstat, readDir := t.readDir }
 
+/-! ### Finiteness: what bounds the recursion depth of `glob` on a tree
+
+Wildcard components only descend into entries whose `IsDir()` is true, i.e.
+real directories (`n == .dir` above; a symbolic link to a directory is listed
+with `false`).  A real sub-directory lies one component deeper in the entry
+list, so a chain of such descents is at most `depthBound` long.  Literal
+components (`..`, symbolic links) can move anywhere, but each of them uses up
+pattern segments.  Hence the fuel `(len(segs)+1) * (depthBound+2) + 1`; it is
+proved sufficient in `ElvProofs/C23/TreeRank.lean` for well-formed trees. -/
+
+/-- the longest location (in components) a walk can be at -/
+def Tree.depthBound (t : Tree) : Nat :=
+  t.entries.foldr (fun e m => max e.1.length m) t.cwd.length
+
+/-- a directory entry name: not empty, not `.` or `..`, no `/` -/
+def nameOK (c : Bytes) : Bool :=
+  c != [] && c != [dotByte] && c != [dotByte, dotByte] && !c.contains slashByte
+
+/-- well-formed: every component of every location is a name, and no location
+is listed twice (what a tree materialised on a real file system looks like) -/
+def Tree.wf (t : Tree) : Bool :=
+  t.entries.all (fun e => e.1.all nameOK) && decide ((t.entries.map (·.1)).Nodup)
+
+/-- The fuel the driver gives `glob`: pattern length × depth (see above). -/
+def fuelFor (t : Tree) (segs : List Seg) : Nat := (segs.length + 1) * (t.depthBound + 2) + 1
+
 end C23
